@@ -118,17 +118,23 @@ fn formatter(namespaces: usize) -> Emf {
 struct Case {
     namespaces: usize,
     script: Vec<Resp>,
-    entry: GenEntry,
+    /// formatted one after the other by ONE formatter into ONE writer (the script spans them)
+    entries: Vec<GenEntry>,
 }
 
 impl Case {
+    fn one(namespaces: usize, script: Vec<Resp>, entry: GenEntry) -> Case {
+        Case { namespaces, script, entries: vec![entry] }
+    }
     fn encode(&self) -> String {
-        format!("{} {} | {}", self.namespaces, enc_script(&self.script), self.entry.encode())
+        let es: Vec<String> = self.entries.iter().map(|e| e.encode()).collect();
+        format!("{} {} | {}", self.namespaces, enc_script(&self.script), es.join(" || "))
     }
     fn decode(s: &str) -> Option<Case> {
-        let (head, entry) = s.split_once(" | ")?;
+        let (head, entries) = s.split_once(" | ")?;
         let (ns, script) = head.split_once(' ')?;
-        Some(Case { namespaces: ns.parse().ok()?, script: dec_script(script)?, entry: GenEntry::decode(entry)? })
+        let entries = entries.split(" || ").map(GenEntry::decode).collect::<Option<Vec<_>>>()?;
+        Some(Case { namespaces: ns.parse().ok()?, script: dec_script(script)?, entries })
     }
 }
 
@@ -177,32 +183,52 @@ fn gen_script(rng: &mut Rng, total: usize) -> Vec<Resp> {
         .collect()
 }
 
+/// what one `format` call did to the writer
+struct Written {
+    accepted: Vec<u8>,
+    calls: Vec<Call>,
+}
+
 struct Outcome {
     /// "ok" | "io:<kind>" | "validation" | "panic:<msg>"
     result: String,
-    w: ScriptedWriter,
+    w: Written,
 }
 
-fn run_impl(c: &Case) -> Outcome {
+/// one formatter, one writer, the entries one after the other whatever the previous result was
+fn run_impl(c: &Case) -> Vec<Outcome> {
     let mut w = ScriptedWriter { script: c.script.clone(), pos: 0, accepted: vec![], calls: vec![], plain_write_calls: 0 };
     let mut f = formatter(c.namespaces);
-    let r = catch(|| f.format(&c.entry, &mut w));
-    let result = match r {
-        Ok(Ok(())) => "ok".to_string(),
-        Ok(Err(IoStreamError::Io(e))) => format!("io:{:?}", e.kind()),
-        Ok(Err(IoStreamError::Validation(_))) => "validation".to_string(),
-        Err(p) => format!("panic:{p}"),
-    };
-    Outcome { result, w }
+    let mut out = vec![];
+    for entry in &c.entries {
+        let r = catch(|| f.format(entry, &mut w));
+        let result = match r {
+            Ok(Ok(())) => "ok".to_string(),
+            Ok(Err(IoStreamError::Io(e))) => format!("io:{:?}", e.kind()),
+            Ok(Err(IoStreamError::Validation(_))) => "validation".to_string(),
+            Err(p) => format!("panic:{p}"),
+        };
+        out.push(Outcome {
+            result,
+            w: Written { accepted: std::mem::take(&mut w.accepted), calls: std::mem::take(&mut w.calls) },
+        });
+    }
+    out
 }
 
-fn reference(c: &Case) -> Option<Vec<u8>> {
-    let mut out = Vec::new();
-    let mut f = formatter(c.namespaces);
-    match catch(|| f.format(&c.entry, &mut out)) {
-        Ok(Ok(())) => Some(out),
-        _ => None,
-    }
+/// the unfaulted output of each entry, each from a fresh formatter
+fn reference(c: &Case) -> Option<Vec<Vec<u8>>> {
+    c.entries
+        .iter()
+        .map(|entry| {
+            let mut out = Vec::new();
+            let mut f = formatter(c.namespaces);
+            match catch(|| f.format(entry, &mut out)) {
+                Ok(Ok(())) => Some(out),
+                _ => None,
+            }
+        })
+        .collect()
 }
 
 fn lines_of(bytes: &[u8]) -> Vec<Vec<u8>> {
@@ -210,7 +236,7 @@ fn lines_of(bytes: &[u8]) -> Vec<Vec<u8>> {
 }
 
 /// the property oracle; returns a description of the failure
-fn oracle(c: &Case, reference: &[u8], o: &Outcome) -> Option<String> {
+fn oracle(reference: &[u8], o: &Outcome) -> Option<String> {
     if o.result.starts_with("panic") {
         return Some(format!("formatting panicked: {}", o.result));
     }
@@ -273,8 +299,62 @@ fn oracle(c: &Case, reference: &[u8], o: &Outcome) -> Option<String> {
             return Some("write_vectored offered an empty first slice".into());
         }
     }
-    let _ = c;
     None
+}
+
+/// every entry of the case judged against its own unfaulted output
+fn oracle_case(refs: &[Vec<u8>], os: &[Outcome]) -> Option<String> {
+    if refs.len() != os.len() {
+        return Some("not every entry was attempted".into());
+    }
+    for (i, (r, o)) in refs.iter().zip(os).enumerate() {
+        if let Some(what) = oracle(r, o) {
+            return Some(if os.len() == 1 { what } else { format!("entry {i} of {}: {what}", os.len()) });
+        }
+    }
+    None
+}
+
+fn resp_tokens(o: &Outcome) -> Vec<String> {
+    o.w.calls
+        .iter()
+        .map(|c| match c.resp {
+            Resp::Ok(_) => format!("o{}", c.accepted),
+            Resp::Interrupted => "i".into(),
+            Resp::Err => "e".into(),
+            Resp::Zero => "o0".into(),
+        })
+        .collect()
+}
+
+/// entry-level request for `Vectored.writeLines` and the implementation's canonical answer.
+/// The lines are the slice lists first offered for each line the formatter reached; the script is
+/// every response the writer gave during the entry — the MODEL decides where one line ends.
+fn per_entry(o: &Outcome) -> (String, String) {
+    let lines = per_line(o);
+    let entry = if lines.is_empty() {
+        "~".to_string()
+    } else {
+        lines.iter().map(|(req, _)| req.split(' ').next().unwrap().to_string()).collect::<Vec<_>>().join(";")
+    };
+    let outcome = match o.result.as_str() {
+        "ok" => "ok",
+        "io:WriteZero" => "writezero",
+        r if r.starts_with("io:") => "ioerr",
+        _ => "other",
+    };
+    let done = lines.iter().filter(|(_, ans)| ans.starts_with("ok ")).count();
+    let offered: Vec<String> =
+        o.w.calls.iter().map(|c| c.offered.iter().map(|n| n.to_string()).collect::<Vec<_>>().join(",")).collect();
+    let ans = format!(
+        "{} {} {} {} {}",
+        outcome,
+        o.w.accepted.len(),
+        o.w.calls.len(),
+        done,
+        if offered.is_empty() { "-".to_string() } else { offered.join("/") }
+    );
+    (entry, ans)
 }
 
 /// split the writer's calls into the per-line `write_all_vectored` invocations and render the model
@@ -333,8 +413,9 @@ fn main() {
     let mut rep = Report::new(
         &args,
         "vectored",
-        "case = (namespaces, writer script, entry); non-trivial = the script makes at least one partial write, \
-         Interrupted, zero-length write or hard error land inside a record; distinct by case text",
+        "case = (namespaces, writer script, entries formatted in sequence by one formatter into one writer); \
+         non-trivial = the script makes at least one partial write, Interrupted, zero-length write or hard error \
+         land inside a record; distinct by case text",
     );
     let mut rng = Rng::new(args.seed);
     let mut cases: Vec<Case> = vec![];
@@ -349,9 +430,9 @@ fn main() {
         for _ in 0..n_exh {
             let entry = gen_entry(&mut rng);
             let namespaces = rng.range(1, 3) as usize;
-            let probe = Case { namespaces, script: vec![], entry: entry.clone() };
+            let probe = Case::one(namespaces, vec![], entry.clone());
             let Some(r) = reference(&probe) else { continue };
-            let first_len = lines_of(&r).iter().map(|l| l.len()).max().unwrap_or(0); // deterministic (line order is not)
+            let first_len = lines_of(&r[0]).iter().map(|l| l.len()).max().unwrap_or(0); // deterministic (line order is not)
             for k in 1..=first_len {
                 let tail = match k % 4 {
                     0 => vec![],
@@ -361,7 +442,7 @@ fn main() {
                 };
                 let mut script = vec![Resp::Ok(k)];
                 script.extend(tail);
-                cases.push(Case { namespaces, script, entry: entry.clone() });
+                cases.push(Case::one(namespaces, script, entry.clone()));
             }
         }
         // (2) random scripts
@@ -369,66 +450,118 @@ fn main() {
         for _ in 0..n_rand {
             let entry = gen_entry(&mut rng);
             let namespaces = rng.range(1, 3) as usize;
-            let probe = Case { namespaces, script: vec![], entry: entry.clone() };
-            let total = reference(&probe).map(|r| r.len()).unwrap_or(0);
+            let probe = Case::one(namespaces, vec![], entry.clone());
+            let total = reference(&probe).map(|r| r[0].len()).unwrap_or(0);
             let script = gen_script(&mut rng, total);
-            cases.push(Case { namespaces, script, entry });
+            cases.push(Case::one(namespaces, script, entry));
+        }
+        // (3) streams: 2–5 entries through ONE formatter into ONE writer; the script spans the entries, so
+        // faults land in any entry and every later entry runs on a formatter / writer that has just failed
+        let n_stream = if args.thorough() { 60_000 } else { 2_500 };
+        for _ in 0..n_stream {
+            let namespaces = rng.range(1, 3) as usize;
+            let entries: Vec<GenEntry> = (0..rng.range(2, 5)).map(|_| gen_entry(&mut rng)).collect();
+            let probe = Case { namespaces, script: vec![], entries: entries.clone() };
+            let lens: Vec<usize> = reference(&probe).map(|r| r.iter().map(|b| b.len()).collect()).unwrap_or_default();
+            let per = lens.iter().copied().max().unwrap_or(1);
+            let n = rng.range(0, 6 * entries.len() as u64);
+            let script = (0..n)
+                .map(|_| match rng.below(12) {
+                    0 => Resp::Interrupted,
+                    1 => Resp::Err,
+                    2 => Resp::Zero,
+                    3 | 4 => Resp::Ok(usize::MAX),
+                    5 => Resp::Ok(1),
+                    _ => Resp::Ok(rng.range(1, per.max(1) as u64 + 2) as usize),
+                })
+                .collect();
+            cases.push(Case { namespaces, script, entries });
         }
     }
 
     let mut requests: Vec<String> = vec![];
-    let mut answers: Vec<(usize, String)> = vec![];
+    let mut answers: Vec<(usize, &'static str, String)> = vec![];
     let mut encoded: Vec<String> = vec![];
     for (ci, c) in cases.iter().enumerate() {
         let enc = c.encode();
-        let Some(r) = reference(c) else {
+        let Some(refs) = reference(c) else {
             rep.bump("skipped:reference-rejected");
             encoded.push(enc);
             continue;
         };
-        let o = run_impl(c);
-        let faults = o.w.calls.iter().filter(|c| !matches!(c.resp, Resp::Ok(_)) || c.accepted < c.offered.iter().sum::<usize>()).count();
+        let os = run_impl(c);
+        let faults: usize = os
+            .iter()
+            .map(|o| o.w.calls.iter().filter(|c| !matches!(c.resp, Resp::Ok(_)) || c.accepted < c.offered.iter().sum::<usize>()).count())
+            .sum();
         rep.case(&enc, faults > 0);
-        rep.bump(&format!("result:{}", o.result.split(':').next().unwrap()));
-        rep.bump(&format!("lines:{}", lines_of(&r).len().min(4)));
-        rep.bump_by("write_vectored calls", o.w.calls.len() as u64);
-        for call in &o.w.calls {
-            rep.bump(match call.resp {
-                Resp::Ok(_) if call.accepted < call.offered.iter().sum::<usize>() => "resp:partial",
-                Resp::Ok(_) => "resp:full",
-                Resp::Interrupted => "resp:interrupted",
-                Resp::Err => "resp:error",
-                Resp::Zero => "resp:zero",
-            });
+        rep.bump(&format!("entries per case:{}", c.entries.len()));
+        if os.len() > 1 {
+            let failed = os.iter().filter(|o| o.result != "ok").count();
+            rep.bump(&format!("stream: failed entries:{}", failed.min(3)));
+            if os.windows(2).any(|w| w[0].result != "ok" && w[1].result == "ok") {
+                rep.bump("stream: an entry succeeded right after a failed one");
+            }
+        }
+        for (o, r) in os.iter().zip(&refs) {
+            rep.bump(&format!("result:{}", o.result.split(':').next().unwrap()));
+            rep.bump(&format!("lines:{}", lines_of(r).len().min(4)));
+            rep.bump_by("write_vectored calls", o.w.calls.len() as u64);
+            for call in &o.w.calls {
+                rep.bump(match call.resp {
+                    Resp::Ok(_) if call.accepted < call.offered.iter().sum::<usize>() => "resp:partial",
+                    Resp::Ok(_) => "resp:full",
+                    Resp::Interrupted => "resp:interrupted",
+                    Resp::Err => "resp:error",
+                    Resp::Zero => "resp:zero",
+                });
+            }
         }
         if ci % 997 == 0 {
-            rep.sample(json!({"case": enc, "impl": o.result, "accepted_bytes": o.w.accepted.len(), "of": r.len()}));
+            rep.sample(json!({"case": enc, "impl": os.iter().map(|o| o.result.clone()).collect::<Vec<_>>(),
+                "accepted_bytes": os.iter().map(|o| o.w.accepted.len()).collect::<Vec<_>>(),
+                "of": refs.iter().map(|r| r.len()).collect::<Vec<_>>()}));
         }
-        if let Some(what) = oracle(c, &r, &o) {
-            // shrink the script (the entry is kept: it is already small)
-            let script = shrink_list(&c.script, |s| {
-                let cc = Case { namespaces: c.namespaces, script: s.to_vec(), entry: c.entry.clone() };
-                reference(&cc).map(|r| oracle(&cc, &r, &run_impl(&cc)).is_some()).unwrap_or(false)
-            });
-            let cc = Case { namespaces: c.namespaces, script, entry: c.entry.clone() };
+        if oracle_case(&refs, &os).is_some() {
+            // shrink the script, then the entry list (the entries themselves are already small)
+            let fails = |cc: &Case| reference(cc).map(|r| oracle_case(&r, &run_impl(cc)).is_some()).unwrap_or(false);
+            let script = shrink_list(&c.script, |s| fails(&Case { namespaces: c.namespaces, script: s.to_vec(), entries: c.entries.clone() }));
+            let entries = shrink_list(&c.entries, |es| !es.is_empty() && fails(&Case { namespaces: c.namespaces, script: script.clone(), entries: es.to_vec() }));
+            let cc = Case { namespaces: c.namespaces, script, entries };
             let oo = run_impl(&cc);
-            rep.oracle_failure("vectored:write_all_vectored", &cc.encode(), &format!("{} accepted={}", oo.result, oo.w.accepted.len()), &what);
+            let what = reference(&cc).and_then(|r| oracle_case(&r, &oo)).unwrap_or_default();
+            let got = oo.iter().map(|o| format!("{} accepted={}", o.result, o.w.accepted.len())).collect::<Vec<_>>().join("; ");
+            rep.oracle_failure("vectored:write_all_vectored", &cc.encode(), &got, &what);
         }
-        for (req, ans) in per_line(&o) {
-            requests.push(req);
-            answers.push((ci, ans));
+        let mut stream_req = vec![];
+        let mut stream_ans = vec![];
+        for o in &os {
+            for (req, ans) in per_line(o) {
+                requests.push(req);
+                answers.push((ci, "write_all_vectored", ans));
+            }
+            let (entry, ans) = per_entry(o);
+            requests.push(format!("E {} {}", entry, resp_tokens(o).join(" ")));
+            answers.push((ci, "entry", ans.clone()));
+            stream_req.push(entry);
+            stream_ans.push(ans);
+        }
+        if os.len() > 1 {
+            let script: Vec<String> = os.iter().flat_map(resp_tokens).collect();
+            requests.push(format!("S {} | {}", stream_req.join(" "), script.join(" ")));
+            answers.push((ci, "stream", stream_ans.join(" ; ")));
         }
         encoded.push(enc);
     }
 
     match run_driver(&args.driver, "vectored", &requests) {
         Some(replies) => {
-            for ((ci, ans), (req, reply)) in answers.iter().zip(requests.iter().zip(replies.iter())) {
+            for ((ci, level, ans), (req, reply)) in answers.iter().zip(requests.iter().zip(replies.iter())) {
                 if ans != reply {
-                    rep.disagreement("vectored/write_all_vectored", &format!("{} ## line-request: {}", encoded[*ci], req), ans, reply);
+                    rep.disagreement(&format!("vectored/{level}"), &format!("{} ## {level}-request: {}", encoded[*ci], req), ans, reply);
                 }
             }
-            rep.bump_by("model requests (one per record line)", requests.len() as u64);
+            rep.bump_by("model requests (one per record line, one per entry, one per stream)", requests.len() as u64);
         }
         None => rep.driver_available = false,
     }
